@@ -14,7 +14,7 @@ import (
 // knownScanKinds lists the scan kinds runScan implements; the contract parser rejects every other word (an unknown
 // kind used to fall through to the writer scan, which found no writer and reported the obligation as discharged).
 var knownScanKinds = map[string]bool{"maprange": true, "gostmts": true, "recoverguard": true, "typekeys": true, "defercalls": true,
-	"assertorder": true, "extcalls": true, "pkgglobals": true, "fieldwriters": true, "globalwriters": true, "structfields": true, "recursive": true, "armeffects": true, "armcalls": true, "pkgvars": true, "recoversites": true}
+	"assertorder": true, "extcalls": true, "pkgglobals": true, "fieldwriters": true, "globalwriters": true, "structfields": true, "recursive": true, "armeffects": true, "armcalls": true, "pkgvars": true, "recoversites": true, "emitoperands": true}
 
 // runScan evaluates one syntactic obligation over the SSA of its package.
 func (p *Program) runScan(sc *Scan) *UnitResult {
@@ -135,6 +135,138 @@ func (p *Program) runScan(sc *Scan) *UnitResult {
 	if !knownScanKinds[sc.Kind] {
 		o.Status = "sat"
 		o.Output = "unknown scan kind " + sc.Kind
+		return res
+	}
+	if sc.Kind == "emitoperands" {
+		// emitoperands <emit function>: <Op>=<field> ... - in every function of the package, a call of the (variadic)
+		// emit function whose opcode argument is the constant <Op> has exactly one operand, and that operand is - up
+		// to numeric conversions - a read of a struct field named <field>. Calls whose opcode is not a constant are
+		// not decided. At least one call per listed opcode must exist.
+		wantField := map[string]string{}
+		for _, a := range sc.Allowed {
+			if eq := strings.Index(a, "="); eq > 0 {
+				wantField[a[:eq]] = a[eq+1:]
+			}
+		}
+		seenOp := map[string]int{}
+		var strip func(v ssa.Value) ssa.Value
+		strip = func(v ssa.Value) ssa.Value {
+			for {
+				switch x := v.(type) {
+				case *ssa.Convert:
+					v = x.X
+				case *ssa.ChangeType:
+					v = x.X
+				default:
+					return v
+				}
+			}
+		}
+		fieldRead := func(v ssa.Value) string {
+			switch x := strip(v).(type) {
+			case *ssa.Field:
+				if st, ok := x.X.Type().Underlying().(*types.Struct); ok {
+					return st.Field(x.Field).Name()
+				}
+			case *ssa.UnOp:
+				if fa, ok := x.X.(*ssa.FieldAddr); ok && x.Op == token.MUL {
+					if pt, ok := fa.X.Type().Underlying().(*types.Pointer); ok {
+						if st, ok := pt.Elem().Underlying().(*types.Struct); ok {
+							return st.Field(fa.Field).Name()
+						}
+					}
+				}
+			}
+			return ""
+		}
+		for key, fn := range p.fnByKey {
+			if fn.Pkg == nil || fn.Pkg.Pkg.Path() != sc.Pkg {
+				continue
+			}
+			base := strings.TrimPrefix(shortKey(key), fn.Pkg.Pkg.Name()+".")
+			var visit func(f *ssa.Function)
+			visit = func(f *ssa.Function) {
+				for _, b := range f.Blocks {
+					for _, in := range b.Instrs {
+						c, ok := in.(*ssa.Call)
+						if !ok {
+							continue
+						}
+						callee := c.Call.StaticCallee()
+						if callee == nil || strings.TrimPrefix(shortKey(fnKey(callee)), callee.Pkg.Pkg.Name()+".") != sc.Target || len(c.Call.Args) < 3 {
+							continue
+						}
+						k, ok := c.Call.Args[1].(*ssa.Const)
+						if !ok {
+							continue
+						}
+						opName := ""
+						if named, ok := k.Type().(*types.Named); ok && named.Obj().Pkg() != nil {
+							scope := named.Obj().Pkg().Scope()
+							for _, n := range scope.Names() {
+								if cc, ok := scope.Lookup(n).(*types.Const); ok && types.Identical(cc.Type(), named) && constant.Compare(cc.Val(), token.EQL, k.Value) {
+									if _, want := wantField[n]; want {
+										opName = n
+									}
+								}
+							}
+						}
+						if opName == "" {
+							continue
+						}
+						seenOp[opName]++
+						// the variadic operands: a slice of a fresh array filled element by element
+						var operands []ssa.Value
+						if sl, ok := c.Call.Args[2].(*ssa.Slice); ok {
+							if al, ok := sl.X.(*ssa.Alloc); ok {
+								for _, ref := range *al.Referrers() {
+									if ia, ok := ref.(*ssa.IndexAddr); ok {
+										for _, r2 := range *ia.Referrers() {
+											if st, ok := r2.(*ssa.Store); ok && st.Addr == ia {
+												operands = append(operands, st.Val)
+											}
+										}
+									}
+								}
+							}
+						}
+						where := p.pos(c.Pos())
+						if len(operands) != 1 {
+							offenders = append(offenders, fmt.Sprintf("%s at %s: %s emitted with %d operands", base, where, opName, len(operands)))
+							continue
+						}
+						if got := fieldRead(operands[0]); got != wantField[opName] {
+							if got == "" {
+								got = "not a field read"
+							}
+							offenders = append(offenders, fmt.Sprintf("%s at %s: the operand of %s is %s, not a read of .%s", base, where, opName, got, wantField[opName]))
+						}
+					}
+				}
+				for _, a := range f.AnonFuncs {
+					visit(a)
+				}
+			}
+			visit(fn)
+		}
+		for opn := range wantField {
+			if seenOp[opn] == 0 {
+				offenders = append(offenders, opn+": no call of "+sc.Target+" with this constant opcode found")
+			}
+		}
+		sort.Strings(offenders)
+		if len(offenders) == 0 {
+			o.Status = "unsat"
+			var parts []string
+			for opn, n := range seenOp {
+				parts = append(parts, fmt.Sprintf("%s x%d", opn, n))
+			}
+			sort.Strings(parts)
+			o.Output = "every constant-opcode call checked (" + strings.Join(parts, ", ") + ") passes the listed field"
+		} else {
+			o.Status = "sat"
+			o.Output = strings.Join(offenders, "; ")
+		}
 		return res
 	}
 	if sc.Kind == "recoversites" {
